@@ -431,6 +431,7 @@ impl TCheck for C08 {
             hard_fault: hard_err_call.is_some(),
             one_cpu,
             post: None,
+            max_scheds: None,
         }
     }
     fn history_oracle(&self, events: &[Event], _report: &BodyReport) -> Vec<String> {
